@@ -4,7 +4,7 @@
    text goes through the inline renderer, and the list is closed with the marker popped. *)
 From Rimu Require Import Base Unicode Regex RegexAnalysis RegexParse Str Types Tables Guards State Inline Block
   Frame FrameBlock FrameInst OptionsLemmas MiscLemmas MoreLemmas Plain TableFacts Lines PlainDoc
-  RegexSem MatchLemmas MatchExact FilterLemmas MacroSubst Emphasis ParaDoc.
+  RegexSem MatchLemmas MatchExact ScanLemmas ParaDoc.
 From Coq Require Import Lia.
 Local Open Scope monad_scope.
 
@@ -373,26 +373,8 @@ Proof.
 Qed.
 
 (* ---- the same through rimu.render, whatever the option values of the call do to the session first ---- *)
-Corollary api_of_doc n src o s s1 r : 
-  updateFrom o (if (s_mode s =? -1)%Z then document_init s else s) = Ok (tt, s1) ->
-  doc_render n src s1 = r -> api_render n src o s = r.
-Proof. intros Hu Hd. rewrite api_render_unfold. cbv zeta. rewrite Hu. exact Hd. Qed.
-
 Corollary single_item_list_api n item o s s1 :
   updateFrom o (if (s_mode s =? -1)%Z then document_init s else s) = Ok (tt, s1) -> quiet_default s1 -> li_item_ok item ->
   api_render (S (S (S (S (S (S (S n))))))) (li_line item) o s = Ok ($"<ul><li>" ++ escape item ++ $"</li></ul>", set_listids s1 []).
 Proof. intros Hu Hq Hi. eapply api_of_doc; [exact Hu|]. apply single_item_list_document; assumption. Qed.
 
-Corollary emphasis_api n o s s1 c pre body post :
-  updateFrom o (if (s_mode s =? -1)%Z then document_init s else s) = Ok (tt, s1) -> quiet_default s1 ->
-  In c safe_first -> over safe_alphabet (c :: pre) -> over safe_alphabet body -> body_ok body -> over safe_alphabet post ->
-  api_render (S (S (S (S (S (S n)))))) ((c :: pre) ++ star :: body ++ star :: post) o s =
-  Ok ($"<p>" ++ (escape (c :: pre) ++ $"<em>" ++ escape body ++ $"</em>" ++ escape post) ++ $"</p>", s1).
-Proof. intros Hu Hq. intros. eapply api_of_doc; [exact Hu|]. apply emphasis_document; assumption. Qed.
-
-Corollary tag_api n o s s1 c pre name post :
-  updateFrom o (if (s_mode s =? -1)%Z then document_init s else s) = Ok (tt, s1) -> quiet_default s1 ->
-  In c word_first -> over word2_alphabet (c :: pre) -> HtmlTag.name_ok2 name -> over word2_alphabet name -> over word2_alphabet post ->
-  api_render (S (S (S (S (S (S n)))))) ((c :: pre) ++ 60 :: name ++ 62 :: post) o s =
-  Ok ($"<p>" ++ ((c :: pre) ++ htmlSafeModeFilter (ienv_of s1) (60 :: name ++ [62]) ++ post) ++ $"</p>", s1).
-Proof. intros Hu Hq. intros. eapply api_of_doc; [exact Hu|]. apply tag_document; assumption. Qed.
